@@ -170,8 +170,43 @@ def _int(x, *a):
 
 
 def install_int_stub():
+    """kept for callers that only run regex-only rules; prefer `int_stub()` (scoped)"""
     import ctparse.time.rules as TR
     TR.int = _int
+
+
+class int_stub:
+    """scoped replacement of the name `int` inside ctparse/time/rules.py by a function that maps
+    a stubbed numeric group to the integer it denotes.  Scoped because a rule that uses `int` as a
+    *type* (`type(x) == int`, ruleDateInterval) would silently change behaviour under the stub."""
+
+    def __enter__(self):
+        import ctparse.time.rules as TR
+        self.TR = TR
+        self.had = "int" in TR.__dict__
+        self.old = TR.__dict__.get("int")
+        TR.int = _int
+        return self
+
+    def __exit__(self, *a):
+        if self.had:
+            self.TR.int = self.old
+        else:
+            try:
+                del self.TR.int
+            except AttributeError:
+                pass
+        return False
+
+
+def uses_int_as_type(fn) -> bool:
+    import inspect
+    import re as _re
+    try:
+        src = inspect.getsource(fn)
+    except Exception:
+        return True
+    return bool(_re.search(r"(?<![\w.])int(?!\s*\()(?![\w])", _re.sub(r"#.*", "", src).replace("Optional[int]", "").replace("-> int", "")))
 
 
 def bounded_texts(n, defines, cap=64) -> Optional[List[str]]:
@@ -360,7 +395,11 @@ def discover(name: str, argspec: List[Tuple[str, Any]], n: int = 120) -> Tuple[s
             ts = TS_SAMPLES[len(outs) % 2]
             a2 = [a if isinstance(a, StubMatch) else copy.deepcopy(a) for a in args]
             try:
-                r = w(ts, *a2)
+                if any(isinstance(a, StubMatch) for a in a2):
+                    with int_stub():
+                        r = w(ts, *a2)
+                else:
+                    r = w(ts, *a2)
                 outs.add(skey(r))
             except Exception:
                 exc += 1
@@ -372,7 +411,6 @@ def discover(name: str, argspec: List[Tuple[str, Any]], n: int = 120) -> Tuple[s
 def build(max_iter: int = 12, extra: Optional[Dict[str, List[str]]] = None) -> Dict[str, Any]:
     """-> {"reach": [shape keys], "obligations": [spec...]};  `extra`: obligation key -> output
     shapes the solver found beyond the sampled ones (closure loop)"""
-    install_int_stub()
     extra = extra or {}
     reach = set()
     obligations: Dict[str, Dict[str, Any]] = {}
